@@ -60,6 +60,7 @@ class Sched:
         self._chase = None
         self.chases = 0
         self.fault_hook = None     # callable(client, gate label) -> exception to raise in that client, or None
+        self.harness_errors = []
         self.faults_injected = 0
 
     # ------------------------------------------------------------ client side
@@ -82,7 +83,12 @@ class Sched:
         self._yield(c)
         hook = self.fault_hook
         if hook is not None:
-            exc = hook(c, label)          # source-free failpoint: the statement / file operation fails in this client
+            try:
+                exc = hook(c, label)      # source-free failpoint: the statement / file operation fails in this client
+            except Exception:             # a bug of the harness must not pass for an outcome of the operation
+                self.harness_errors.append(traceback.format_exc())
+                self.aborted = True
+                raise StepCap()
             if exc is not None:
                 self.faults_injected += 1
                 raise exc
@@ -158,6 +164,8 @@ class Sched:
                 c.thread.join(timeout=20)
             probe.set_controller(old_ctrl)
             self.clock.sleep_hook = old_hook
+        if self.harness_errors:
+            raise RuntimeError('harness hook failed inside a schedule: ' + self.harness_errors[0][-600:])
         return not self.aborted
 
     def _runnable(self, live):
